@@ -49,33 +49,33 @@ theorem mem_foldl_insertNew (xs : List St) : ∀ (acc : List St) (t : St),
     · exact Or.inr (by simp [h])
 
 theorem closure_sound (P : St → Prop) (hP : ∀ s t, P s → TauStep s t → P t) :
-    ∀ (n : Nat) (acc todo : List St), (∀ t ∈ acc, P t) → (∀ t ∈ todo, P t) →
-      ∀ t ∈ closure n acc todo, P t := by
+    ∀ (n : Nat) (seen : Seen) (acc todo : List St), (∀ t ∈ acc, P t) → (∀ t ∈ todo, P t) →
+      ∀ t ∈ closure n seen acc todo, P t := by
   intro n
   induction n with
-  | zero => intro acc todo ha _ t ht; simp only [closure] at ht; exact ha t ht
+  | zero => intro seen acc todo ha _ t ht; simp only [closure] at ht; exact ha t ht
   | succ n ih =>
-    intro acc todo ha htodo t ht
+    intro seen acc todo ha htodo t ht
     cases todo with
     | nil => simp only [closure] at ht; exact ha t ht
     | cons s todo =>
       simp only [closure] at ht
       have hs : P s := htodo s (by simp)
-      have hnew : ∀ u ∈ ((tauSucc s).filter fun t => !(acc.contains t)).foldl insertNew [],
+      have hnew : ∀ u ∈ ((tauSucc s).filter fun t => !(seen.contains t)).foldl insertNew [],
           P u := by
         intro u hu
         rcases mem_foldl_insertNew _ [] u hu with h | h
         · simp at h
         · exact hP s u hs (tauSucc_sound (List.mem_filter.mp h).1)
-      apply ih _ _ _ _ t ht
+      apply ih _ _ _ _ _ t ht
       · intro u hu
         rcases List.mem_append.mp hu with h | h
+        · exact hnew u h
         · exact ha u h
-        · exact hnew u h
       · intro u hu
         rcases List.mem_append.mp hu with h | h
-        · exact htodo u (by simp [h])
         · exact hnew u h
+        · exact htodo u (by simp [h])
 
 theorem close_sound {m : List St} {t : St} (ht : t ∈ close m) : ∃ s ∈ m, TauStar s t := by
   simp only [close] at ht
@@ -85,17 +85,18 @@ theorem close_sound {m : List St} {t : St} (ht : t ∈ close m) : ∃ s ∈ m, T
     · simp at h
     · exact ⟨u, h, .refl u⟩
   exact closure_sound (fun u => ∃ s ∈ m, TauStar s u)
-    (fun s t ⟨s0, h0, hs⟩ hst => ⟨s0, h0, .tail hs hst⟩) _ _ _ hinit hinit t ht
+    (fun s t ⟨s0, h0, hs⟩ hst => ⟨s0, h0, .tail hs hst⟩) _ _ _ _ hinit hinit t ht
 
-theorem closure_superset : ∀ (n : Nat) (acc todo : List St) (t : St), t ∈ acc → t ∈ closure n acc todo := by
+theorem closure_superset : ∀ (n : Nat) (seen : Seen) (acc todo : List St) (t : St), t ∈ acc →
+    t ∈ closure n seen acc todo := by
   intro n
   induction n with
-  | zero => intro acc todo t h; simpa [closure] using h
+  | zero => intro seen acc todo t h; simpa [closure] using h
   | succ n ih =>
-    intro acc todo t h
+    intro seen acc todo t h
     cases todo with
     | nil => simpa [closure] using h
-    | cons s todo => simp only [closure]; exact ih _ _ t (List.mem_append.mpr (Or.inl h))
+    | cons s todo => simp only [closure]; exact ih _ _ _ t (List.mem_append.mpr (Or.inr h))
 
 theorem acceptFrom_sound : ∀ (es : List Ev) (m : List St) (k : Nat) (mf : List St),
     acceptFrom m k es = (none, mf) → (m ≠ [] → mf ≠ []) ∧ ∀ t ∈ mf, ∃ s ∈ m, TraceRun s es t := by
